@@ -15,7 +15,7 @@ def rating_check(ctx):
     viol = list(s['violations'])
     v2, st = record_and_validate(ctx, 'C15', n=200000 if thorough else 6000)
     viol += v2
-    for k in range(40 if thorough else 10):   # first Rating calls of fresh processes, made concurrently
+    for k in range(150 if thorough else 40):   # first Rating calls of fresh processes, made concurrently
         s0 = ctx.harness('coldstart', prop='C15', **{'in': r['out'], 'seed': ctx.seed * 100 + k})
         viol += s0['violations']
     cov = dict(traces_validated_against_impl=st['events'] + s['evaluations'], evaluations=st['events'] + s['evaluations'],
